@@ -86,3 +86,9 @@ Example C09_nonvacuous :
   /\ option_map (fun p => map fst (fst p)) (run_forms [(FSource, []); (FSource, [0]); (FSource, [0; 1])] 1%N)
      = Some [22%N; 281%N; 2983%N].
 Proof. vm_compute. split; reflexivity. Qed.
+
+(* a parse result WITHOUT AST (parser.ResultWithoutAST) is covered as well: same contents, no source info, the
+   supplied result and its proto untouched *)
+Example C09_nonvacuous_result_without_ast :
+  run_forms [(FResNoAst, []); (FRes, [0])] 1%N = Some ([(22%N, None); (281%N, Some 3676%N)], true).
+Proof. vm_compute. reflexivity. Qed.
